@@ -23,6 +23,31 @@ def wild (ci : Bool) : List Nat → List Nat → Bool
     else (if ci then upper p == upper c else p == c) && wild ci ps cs
 termination_by p n => p.length + n.length
 
+/-! ### the matcher as `ListTree._matches` runs it (after the repair of the backtracking regular expression)
+
+One pass over the name, carrying the set of pattern positions that can have been reached; a position is represented by the
+pattern suffix that starts there. -/
+
+def isWild (p : Nat) : Bool := p = star || p = pct
+
+/-- `closure` of one position: a wildcard may match nothing, so the position after it is reached as well -/
+def closure1 : List Nat → List (List Nat)
+  | [] => [[]]
+  | p :: ps => (p :: ps) :: (if isWild p then closure1 ps else [])
+
+def closure (S : List (List Nat)) : List (List Nat) := (S.flatMap closure1).eraseDups
+
+/-- where one position goes on reading `c` -/
+def stepPos (ci : Bool) (c : Nat) : List Nat → List (List Nat)
+  | [] => []
+  | p :: ps =>
+    if p = star then [p :: ps]
+    else if p = pct then (if c != delim then [p :: ps] else [])
+    else if (if ci then upper p == upper c else p == c) then [ps] else []
+
+def wildDP (ci : Bool) (pat name : List Nat) : Bool :=
+  (name.foldl (fun S c => closure (S.flatMap (stepPos ci c))) (closure [pat])).contains []
+
 /-- all non-empty proper and improper prefixes of `n` that end at a delimiter or at the end -/
 def prefixes (n : Name) : List Name :=
   (List.range (n.length + 1)).filterMap (fun i =>
